@@ -186,8 +186,47 @@ def add_asserts(tree: ast.Module) -> None:
     ast.fix_missing_locations(tree)
 
 
+def hoist_call_arguments(tree: ast.Module) -> None:
+    """x = f(g(a), h(b))  ->  _h1 = g(a); _h2 = h(b); x = f(_h1, _h2)   (statement-level calls only; evaluation order kept)."""
+    counter = [0]
+
+    def simple(e: ast.expr) -> bool:
+        return isinstance(e, (ast.Name, ast.Constant)) or (isinstance(e, ast.Attribute) and simple(e.value)) or isinstance(e, (ast.Starred, ast.Lambda))
+
+    def rewrite_block(body: list) -> list:
+        out = []
+        for st in body:
+            for fld in ("body", "orelse", "finalbody"):
+                blk = getattr(st, fld, None)
+                if isinstance(blk, list) and blk and isinstance(blk[0], ast.stmt):
+                    setattr(st, fld, rewrite_block(blk))
+            if isinstance(st, ast.Try):
+                for h in st.handlers:
+                    h.body = rewrite_block(h.body)
+            call = None
+            if isinstance(st, (ast.Expr, ast.Assign, ast.Return)) and isinstance(getattr(st, "value", None), ast.Call):
+                call = st.value
+            if call is not None and not any(isinstance(n, (ast.Yield, ast.YieldFrom, ast.Await, ast.NamedExpr)) for n in ast.walk(call)) \
+                    and not (isinstance(call.func, ast.Name) and call.func.id in ("super", "isinstance", "locals", "vars")):
+                pre = []
+                # the callee's receiver must not be affected by the arguments' side effects: only hoist when all arguments are calls/operators on plain names
+                for i, a in enumerate(call.args):
+                    if not simple(a) and not isinstance(a, (ast.GeneratorExp,)):
+                        counter[0] += 1
+                        nm = f"_h{counter[0]}"
+                        pre.append(ast.Assign(targets=[ast.Name(id=nm, ctx=ast.Store())], value=a, lineno=st.lineno, col_offset=0))
+                        call.args[i] = ast.Name(id=nm, ctx=ast.Load())
+                out.extend(pre)
+            out.append(st)
+        return out
+    for fn in [n for n in ast.walk(tree) if isinstance(n, ast.FunctionDef)]:
+        fn.body = rewrite_block(fn.body)
+    ast.fix_missing_locations(tree)
+
+
 TREE_TWINS = {"alpha-renaming of all locals in every function": rename_locals,
-              "assert + logging call inserted at the top of every function": add_asserts}
+              "assert + logging call inserted at the top of every function": add_asserts,
+              "call arguments hoisted into fresh locals in every function": hoist_call_arguments}
 
 
 def tree_twin_overrides(prog: Program, transform) -> dict:
